@@ -100,6 +100,8 @@ class C18(Check):
             elif o in ('u8dec', 'u8valid'):
                 if a != '-' and any(b >= 0x80 for b in bytes.fromhex(a)):
                     return True
+            elif o in ('u8sw', 'b64sw'):
+                return True
             elif o in ('b64', 'b64raw'):
                 if a != '-' and (len(a) // 2) % 4 == 0:
                     return True
@@ -188,6 +190,37 @@ class C18(Check):
                           note='length 3: %s first byte x 35-symbol class alphabet^2%s' % ('every' if thorough else 'class alphabet',
                                                                                            '; length 4 over the class alphabet with a lead byte first' if thorough else '')))
 
+        # -- readers: byte sweeps (one op = 256 strings prefix ++ [v] ++ suffix) -----------------------
+        h1 = lambda *bs: hexs(bytes(bs))
+        ops = []
+        if thorough:
+            for a in range(256):
+                for b in range(256):
+                    ops.append('u8sw %s -' % h1(a, b))                      # every byte string of length 3
+            for a in range(0xf0, 0xf8):
+                for b in U8_ALPHA:
+                    for c in U8_ALPHA:
+                        ops.append('u8sw %s -' % h1(a, b, c))               # length 4 behind a 4-byte lead
+            for a in (0x41, 0xc2, 0xe0, 0xed, 0xef):
+                for b in U8_ALPHA:
+                    for c in U8_ALPHA:
+                        ops.append('u8sw %s %s' % (h1(a, b), h1(c)))        # length 4, a sequence and what follows it
+        else:
+            leads = [0x41, 0x80, 0xc2, 0xdf, 0xe0, 0xed, 0xef, 0xf0, 0xf4, 0xf7, 0xf8]
+            for a in leads:
+                ops.append('u8sw %s -' % h1(a))
+                for b in U8_ALPHA:
+                    ops.append('u8sw %s -' % h1(a, b))
+                    ops.append('u8sw %s %s' % (h1(a), h1(b)))
+            for a in (0xf0, 0xf4):
+                for b in (0x7f, 0x80, 0xbf, 0xc0):
+                    for c in (0x7f, 0x80, 0xbf, 0xc0):
+                        ops.append('u8sw %s -' % h1(a, b, c))
+                        ops.append('u8sw %s %s' % (h1(a, b), h1(c)))
+        out.append(Stream('readers_sweep', chunk(ops, 64), exhaustive=thorough,
+                          note=('every byte string of length 3 (65536 sweeps of the last byte); length 4 behind every 4-byte lead over the class alphabet'
+                                if thorough else 'sweeps of one byte (256 values) behind/between class-alphabet bytes: lengths 2, 3 and 4')))
+
         # -- mostly valid text + one mutation; several code points ------------------------------
         ops = []
         for _ in range(6000 if thorough else 900):
@@ -227,6 +260,18 @@ class C18(Check):
         out.append(Stream('b64_short_ascii', chunk(lo_ops, 256), exhaustive=True, note='all strings of length <= 4 over {A Q f z / + 9 = { NUL}'))
         out.append(Stream('b64_short_high', chunk(hi_ops, 128), exhaustive=True,
                           note='all strings of length <= 4 over {A Q f z / + 9 = { NUL 0x80 0xff} with at least one byte >= 0x80'))
+
+        # -- base64: one position runs over all 256 byte values, the others over an alphabet ------------------
+        alpha = (low + high) if thorough else [0x41, 0x7a, 0x2f, 0x3d, 0x80]
+        ops = []
+        for pos in range(4):
+            for rest in product(alpha, 3):
+                ops.append('b64sw %s %s' % (hexs(rest[:pos]), hexs(rest[pos:])))
+        for pos in range(4):
+            for rest in product([0x41, 0x7a, 0x3d, 0xff], 3):
+                ops.append('b64sw %s %s' % (hexs(b'QUJD' + rest[:pos]), hexs(rest[pos:])))   # second group
+        out.append(Stream('b64_sweep', chunk(ops, 32), exhaustive=True,
+                          note='4-character strings: each position over all 256 byte values x the other three over %d symbols; the same in a second group' % len(alpha)))
 
         # -- base64: RFC 4648 encodings and their neighbourhood ---------------------------------------
         ops = []
